@@ -16,14 +16,21 @@ statement monad of coq/theories/PyPreludePipeline.v (`stm A` = Pipeline.v's writ
   if t: ...return / raise                     the rest of the block goes into the other arm (so that what the test
                                               narrowed - `if task is None: return` - stays narrowed), when the test is atomic
   return                                      return_
+  return e   (function with a declared        return_v e      (e pure; every path of such a function must end in
+              result type, spec "ret")                         `return e` or `raise`: the fall-through type is empty)
   try: A except Exception [as e]: H           outs <~ try_except (A; next outs) (fun e => H; next outs) ;; ...
      [else: E]                                try_else (A; next mid) (fun e => H; next outs) (fun mid => E; next outs)
+  try: A except C [as e]: H [else: E]         try_except_on P / try_else_on P, P = the unit's predicate for class C
+                                              (Ext.except_classes; `Exception` keeps the two forms above)
   raise / raise e   (inside the handler)      raise_ e
+  raise C / raise C() [from <pure expr>]      raise_ x, x = the unit's reading of a fresh exception of class C
+                                              (Ext.exc_new); the cause does not influence control flow
   for x in <list>: B                          state <~ for_ l (fun x state => B; next state) state0 ;; ...
                                               (`state` = the variables B re-binds that exist before the loop)
   logging calls, docstrings, pass             nothing
-Everything else raises Unsupported: `finally`, `while`, `with`, `break` / `continue`, `return <value>`, other `except`
-clauses, loop `else`, awaits that are not primitives of the unit, nested functions, ...
+Everything else raises Unsupported: `finally`, `while`, `with`, `break` / `continue`, `return <value>` in a function
+without declared result, several `except` clauses, tuples of exception classes, loop `else`, awaits that are not
+primitives of the unit, nested functions, ...
 
 Fail-closed rules that matter for soundness of the reading:
   * a variable (re-)bound in a try-suite is not visible in the handler, nor after the statement unless every path
@@ -38,6 +45,11 @@ Unit-specific hooks (attributes of pygal.Ext, on top of the ones pygal.py docume
                               node is the value of an assignment / expression statement (Await included)
   mutates(stmt)            -> set of local names whose object the expression statement mutates (syntactic)
   fact_test(fn, g, t, env, kt, kf)   the truthiness test of a Boolean carrying a `fact` (see pygal.tr_test)
+  except_classes           {python class name: Gallina predicate on exceptions}   (default: only `Exception`)
+  exc_new(fn, node, env)   -> None | Gallina text of a freshly constructed exception (node = the operand of `raise`)
+Function spec keys on top of pygal's: "ret" (Ty: the function returns a value), "vararg" / "kwarg" ((name, Ty): the
+function has *name / **name, handed to the Gallina function as ordinary parameters of that opaque type; only the
+unit's primitives can look at them), "gparams" (text of extra implicit binders, e.g. "{pval : Type}").
 
 Trusted: pygal.py, this file, the unit's primitive tables, PyPreludePipeline.v, Python's `ast`."""
 import ast
@@ -199,12 +211,28 @@ def tr_block(fn, stmts, env, k, live):
     if isinstance(s, ast.Return):
         if rest:
             _bad("statements after return", rest[0])
+        rt = fn.spec.get("ret")
+        if rt is not None:
+            if s.value is None:
+                _bad("bare return in a function with a declared result", s)
+            g, t = pure(fn, s.value, env)
+            if t != rt:
+                _bad("return of %r where %r is declared" % (t, rt), s)
+            return "return_v %s" % g
         if s.value is not None and not (isinstance(s.value, ast.Constant) and s.value.value is None):
             _bad("return of a value (the function is translated for its effects)", s)
         return "return_"
     if isinstance(s, ast.Raise):
         if rest:
             _bad("statements after raise", rest[0])
+        new = getattr(fn.ext, "exc_new", None)
+        gx = new(fn, s.exc, env) if (new is not None and s.exc is not None) else None
+        if gx is not None:
+            if s.cause is not None:          # `from <cause>`: evaluated, stored in __cause__, no influence on control
+                cg, ct = pure(fn, s.cause, env)
+                if ct != fn.ext.exc_type and ct != NONE:
+                    _bad("raise ... from %r" % ct, s)
+            return "raise_ %s" % gx
         if "__exc" not in env or s.cause is not None:
             _bad("raise outside an except clause / raise ... from", s)
         g, name = env["__exc"]
@@ -296,9 +324,12 @@ def _unreachable(node):
 def tr_try(fn, s, env, cont, live_rest):
     if s.finalbody:
         _bad("try ... finally", s)
-    if len(s.handlers) != 1 or path_of(s.handlers[0].type) != "Exception":
-        _bad("a try statement other than `try ... except Exception [as e] ... [else ...]`", s)
+    classes = getattr(fn.ext, "except_classes", None) or {"Exception": None}
+    if len(s.handlers) != 1 or s.handlers[0].type is None or path_of(s.handlers[0].type) not in classes:
+        _bad("a try statement other than `try ... except %s [as e] ... [else ...]`" % " | ".join(sorted(classes)), s)
     h = s.handlers[0]
+    pred = classes[path_of(h.type)] if path_of(h.type) != "Exception" else None
+    on = "" if pred is None else "_on %s" % pred
     if h.name and h.name in env:
         _bad("the except clause's name shadows a local variable (Python unbinds it after the handler)", h)
     outs = sorted((assigned(fn, s.body) | assigned(fn, h.body) | assigned(fn, s.orelse)) & live_rest)
@@ -315,7 +346,7 @@ def tr_try(fn, s, env, cont, live_rest):
     h_text = tr_block(fn, h.body, henv, kk, live_rest)
     if not s.orelse:
         b_text = tr_block(fn, s.body, env, kk, live_rest)
-        text = "try_except (\n%s)\n(fun %s =>\n%s)" % (b_text, xv, h_text)
+        text = "try_except%s (\n%s)\n(fun %s =>\n%s)" % (on, b_text, xv, h_text)
     else:
         mid = sorted(assigned(fn, s.body) & (names_used(s.orelse) | live_rest))
         mbox = []
@@ -330,7 +361,7 @@ def tr_try(fn, s, env, cont, live_rest):
             names.append(nv)
         pat = "_" if not names else names[0] if len(names) == 1 else "'(%s)" % ", ".join(names)
         e_text = tr_block(fn, s.orelse, e2, kk, live_rest)
-        text = "try_else (\n%s)\n(fun %s =>\n%s)\n(fun %s =>\n%s)" % (b_text, xv, h_text, pat, e_text)
+        text = "try_else%s (\n%s)\n(fun %s =>\n%s)\n(fun %s =>\n%s)" % (on, b_text, xv, h_text, pat, e_text)
     return bind_outs(fn, text, outs, out_types(outs, box, s), env, cont)
 
 
@@ -408,8 +439,15 @@ def translate(repo, spec):
         if nd.decorator_list:
             _bad("decorated function", nd)
         a = nd.args
-        if a.vararg or a.kwarg or a.kwonlyargs or a.posonlyargs or a.kw_defaults:
+        if a.kwonlyargs or a.posonlyargs or a.kw_defaults:
             _bad("parameter list of %s" % nd.name, nd)
+        star = []
+        for what, have in (("vararg", a.vararg), ("kwarg", a.kwarg)):
+            want_star = fs.get(what)
+            if (have.arg if have else None) != (want_star[0] if want_star else None):
+                _bad("%s of %s is %r" % (what, nd.name, have.arg if have else None), nd)
+            if want_star:
+                star.append(tuple(want_star))
         if [x.arg for x in a.args] != [p for p, _ in fs["params"]]:
             _bad("parameters of %s are %r" % (nd.name, [x.arg for x in a.args]), nd)
         want = fs.get("defaults", [])
@@ -421,13 +459,21 @@ def translate(repo, spec):
                 _bad("%s inside the function" % type(n).__name__, n)
         fn = pygal.Fn(unit, fs)
         env = dict(spec.get("globals", {}))
-        for p, t in fs["params"]:
+        params = list(fs["params"]) + star
+        for p, t in params:
             env[p] = (p, t)
-        body = tr_block(fn, nd.body, env, lambda e: "next tt", set())
-        ps = " ".join("(%s : %s)" % (p, gty(t)) for p, t in fs["params"])
+        rt = fs.get("ret")
+        if rt is None:
+            body = tr_block(fn, nd.body, env, lambda e: "next tt", set())
+        else:       # every path must end in `return e` / `raise`: the type of the fall-through end is empty
+            def off_end(e, nd=nd):
+                _bad("%s may fall off its end (it has a declared result)" % nd.name, nd)
+            body = tr_block(fn, nd.body, env, off_end, set())
+        ps = " ".join(([fs["gparams"]] if fs.get("gparams") else []) + ["(%s : %s)" % (p, gty(t)) for p, t in params])
         gname = fs.get("gname", nd.name)
-        out.append("(* %s, lines %d-%d *)\nDefinition %s %s : M unit :=\nrun_fn (\n%s)." % (
-            spec["file"], nd.lineno, nd.end_lineno, gname, ps, indent(body)))
+        out.append("(* %s, lines %d-%d *)\nDefinition %s %s : %s %s :=\n%s (\n%s)." % (
+            spec["file"], nd.lineno, nd.end_lineno, gname, ps, spec.get("monad", "M"), paren(gty(rt)) if rt else "unit",
+            "run_fn_ret" if rt else "run_fn", indent(body)))
         info["functions"][nd.name] = dict(lines=[nd.lineno, nd.end_lineno], backend="monadic")
     head = "(* GENERATED on every run by harness/pygal_m.py from %s (sha256 %s) - do not edit *)\n" % (
         spec["file"], info["sha256"][:16])
